@@ -15,8 +15,21 @@ package shellfuncsfile
 
 //@ type Converter as c
 //@   lock filtersL protects filters
+//@   nonnil filters
+//@   lockinv filtersL every_pattern_in_the_table_has_a_filter: forallStr(p, has(c.filters, p), c.filters[p] != nil)
 
 // ---- the Ctrl+I payload (C17)
+// SetFilter: the filter table is only touched under its lock (C17: a payload
+// being built elsewhere works on its own snapshot).
+//@ func Converter.SetFilter(c, ext, filter)
+//@   props C17
+//@   nilable filter
+//@   ghost nLock int = 0
+//@   on call RWMutex.Lock(m): nLock++
+//@   ensures a_nil_filter_removes_the_pattern: imp(filter == nil, !has(c.filters, ext))
+//@   ensures a_filter_is_stored_under_its_pattern: imp(filter != nil, has(c.filters, ext) && c.filters[ext] == filter)
+//@   ensures table_changed_only_under_its_write_lock: nLock == 1
+
 
 // fromSingleFile: converted content, or the content unchanged when no filter matches.
 //@ func Converter.fromSingleFile(c, name) (res, err)
@@ -57,6 +70,8 @@ package shellfuncsfile
 //@     invariant none_matched_so_far: f == nil && mi == 0 - 1 && nFilter == 0 && nSort == 1 && !matchErr
 //@     invariant earlier_patterns_do_not_match: forall(j, 0 <= j && j < k, !filepath.Match(patterns[j], filepath.Base(fn)))
 //@   exit: assert(imp(nFilter == 1, mi >= 0 && forall(j, 0 <= j && j < mi, !filepath.Match(patterns[j], filepath.Base(fn))) && filepath.Match(patterns[mi], filepath.Base(fn))), "first_matching_pattern_in_sorted_order_wins")
+//@   requires every_pattern_in_the_table_has_a_filter: forallStr(p, has(filters, p), filters[p] != nil)
+//@   ensures a_file_matching_a_pattern_is_converted_by_its_filter: imp(mi >= 0, nFilter == 1)
 //@   ensures no_match_is_errNoConverter: imp(nFilter == 0 && !matchErr, err == errNoConverter)
 //@   ensures bad_pattern_reported: imp(matchErr, err != nil && nFilter == 0)
 //@   ensures filter_error_reported: imp(filterErr, err != nil)
